@@ -9,7 +9,7 @@ from ..core import short_exc
 
 PROP = "C05"
 LEVEL = "exploration"
-N = {"quick": 20000, "thorough": 500000}
+N = {"quick": 80000, "thorough": 1600000}
 RULE = ("seeded instance x filter x op list with query bursts (1-8 queries, random order, repeats) between all "
         "dispatches, invalid requests and resets; every single answer is compared with the reference model's "
         "from-scratch recomputation for the current state (multiset + no duplicates), plus partition laws; "
